@@ -7,6 +7,7 @@ CONSTANTS
   WithBad = FALSE
   WithInv = TRUE
   Dyn = FALSE
+  WithDC = TRUE
 VIEW CoarseView
-ACTION_CONSTRAINT Dump
+ACTION_CONSTRAINT DumpL
 CHECK_DEADLOCK FALSE
